@@ -143,3 +143,21 @@ package mux
 //@   requires m != nil && m.muxes != nil
 //@   callpre unregisterMux: @own_id: $id == newId
 //@   callpre AllowMoreConns: @one_permit: $amt == 1
+
+// C10 (shutdown clause, receiver role): a connection that Accept returned is either handed to the caller or closed
+// (defect D16, fixed: when the lifetime ended while Accept returned a connection, it was dropped open).
+//@ extern (net.Listener).Accept@(*receivingConnProvider).NewConnection(l)
+//@   trusted net: a connection or an error, never both
+//@   ensures (result1 == nil) == (result0 != nil)
+//@   ensures result0 != nil ==> !result0.closed
+//@   assigns nothing
+//@ extern quiet classifyError
+//@ extern $r.tlsWrapper@(*receivingConnProvider).NewConnection(c)
+//@   trusted tls.Server / identity: wraps the connection (closing the wrapper closes it)
+//@   ensures result != nil
+//@   assigns nothing
+//@ contract (*receivingConnProvider).NewConnection
+//@   props C10
+//@   requires r.listener != nil
+//@   ensures @accepted_is_returned_or_closed: result0 == nil && conn != nil ==> conn.closed
+//@   ensures @error_means_no_connection: result1 != nil ==> result0 == nil
